@@ -5,7 +5,7 @@
 //! validated by TLC against Builder.tla (BuilderTrace.tla).  Public API only.
 //!
 //! Scenario: {"name":..,"workers":W,"calls":[{"kind":"bind","addrs":[true,false,..]}|{"kind":"listen"}|{"kind":"uds"}],
-//!            "events":[{"k":"conn","s":p}|{"k":"fail","c":c}|{"k":"die","s":p}|{"k":"die2","s":p}|{"k":"pend","c":c}|{"k":"unpend","c":c}]}
+//!            "events":[{"k":"conn","s":p}|{"k":"fail","c":c}|{"k":"die","s":p}|{"k":"die2","s":p}|{"k":"diehold","s":p} (with "limit":2)|{"k":"pend","c":c}|{"k":"unpend","c":c}]}
 //! Trace records: {"ev":"reset"} {"ev":"call","kind","addrs","ok"} {"ev":"run","workers","ok"}
 //!                {"ev":"conn","s","by"} {"ev":"fail","c"} {"ev":"die"} {"ev":"made","made":[..]}
 
@@ -36,6 +36,10 @@ struct Shared {
     fail: Vec<AtomicBool>,
     poison: AtomicBool,
     poisoned: AtomicUsize,
+    /// the next readiness check of any service panics (the worker dies inside `poll_ready`)
+    panic_ready: AtomicBool,
+    /// `call` invocations so far
+    ncalls: AtomicUsize,
     /// service instances destroyed (a dying worker takes its services with it)
     dropped: AtomicUsize,
     /// per call: its services answer Pending to the readiness check while set
@@ -65,6 +69,10 @@ impl<S: AsyncRead + AsyncWrite + Unpin + 'static> Service<S> for TagSvc {
     type Future = Pin<Box<dyn Future<Output = Result<(), ()>>>>;
 
     fn poll_ready(&self, cx: &mut Context<'_>) -> Poll<Result<(), ()>> {
+        if self.sh.panic_ready.swap(false, Ordering::SeqCst) {
+            self.sh.poisoned.fetch_add(1, Ordering::SeqCst);
+            panic!("poisoned readiness check: the worker future dies");
+        }
         if self.sh.pend[self.c].load(Ordering::SeqCst) {
             if self.sh.slow_once.swap(false, Ordering::SeqCst) {
                 thread::sleep(Duration::from_millis(300));
@@ -83,6 +91,7 @@ impl<S: AsyncRead + AsyncWrite + Unpin + 'static> Service<S> for TagSvc {
     }
 
     fn call(&self, mut stream: S) -> Self::Future {
+        self.sh.ncalls.fetch_add(1, Ordering::SeqCst);
         if self.sh.poison.swap(false, Ordering::SeqCst) {
             self.sh.poisoned.fetch_add(1, Ordering::SeqCst);
             panic!("poisoned call: the worker future dies");
@@ -188,6 +197,14 @@ fn client_open(a: &Addr) -> Option<Sock> {
     Some(sock)
 }
 
+/// connects and says nothing: the service's future waits for the request byte, the connection stays in progress
+fn client_silent(a: &Addr) -> Option<Sock> {
+    Some(match a {
+        Addr::Tcp(sa) => Sock::Tcp(StdTcpStream::connect_timeout(sa, Duration::from_millis(1000)).ok()?),
+        Addr::Uds(p) => Sock::Uds(StdUnixStream::connect(p).ok()?),
+    })
+}
+
 fn client(a: &Addr, ms: u64) -> u8 {
     client_keep(a, ms).0
 }
@@ -205,12 +222,16 @@ fn reserve() -> (socket2::Socket, SocketAddr) {
 
 pub fn run_scenario(sc: &Value, dir: &str, idx: usize) -> Vec<Value> {
     let workers = sc["workers"].as_u64().unwrap_or(1) as usize;
+    // per-worker connection limit (0: the default, never reached)
+    let limit = sc["limit"].as_u64().unwrap_or(0) as usize;
     let calls: Vec<Value> = sc["calls"].as_array().cloned().unwrap_or_default();
     let sh = Arc::new(Shared {
         made: (0..MAXC).map(|_| AtomicUsize::new(0)).collect(),
         fail: (0..MAXC).map(|_| AtomicBool::new(false)).collect(),
         poison: AtomicBool::new(false),
         poisoned: AtomicUsize::new(0),
+        panic_ready: AtomicBool::new(false),
+        ncalls: AtomicUsize::new(0),
         dropped: AtomicUsize::new(0),
         pend: (0..MAXC).map(|_| AtomicBool::new(false)).collect(),
         wakers: std::sync::Mutex::new(vec![]),
@@ -233,6 +254,9 @@ pub fn run_scenario(sc: &Value, dir: &str, idx: usize) -> Vec<Value> {
         let sys = actix_rt::System::new();
         sys.block_on(async move {
             let mut b = Some(Server::build().workers(workers).shutdown_timeout(1).disable_signals());
+            if limit > 0 {
+                b = b.map(|b| b.max_concurrent_connections(limit));
+            }
             let mut addrs: Vec<Addr> = vec![];
             // listening sockets that make an address "already in use"
             let mut blockers = vec![];
@@ -344,6 +368,7 @@ pub fn run_scenario(sc: &Value, dir: &str, idx: usize) -> Vec<Value> {
 
     let mut pending_die: Option<usize> = None;
     let mut waiting: Vec<Sock> = vec![];
+    let mut holders: Vec<Sock> = vec![];
     if started {
         for e in sc["events"].as_array().cloned().unwrap_or_default() {
             match e["k"].as_str().unwrap_or("") {
@@ -442,6 +467,36 @@ pub fn run_scenario(sc: &Value, dir: &str, idx: usize) -> Vec<Value> {
                     if died > 0 {
                         pending_die = Some(before + died * nsock);
                         out.push(json!({"ev": if died == 2 { "die2" } else { "die" }}));
+                    } else {
+                        out.push(json!({"ev": "survived"}));
+                    }
+                    out.push(json!({"ev": "made", "made": made_now(&sh)}));
+                }
+                "diehold" => {
+                    // a worker dies AT ITS LIMIT (scenario limit 2) inside a readiness check while a client keeps a connection
+                    // open on it: one silent client per worker (round robin), then a client whose dispatch fills the first
+                    // worker and makes it run the poisoned readiness check.  The dying worker stops its arbiter, which tears
+                    // the held connection down; its released slot is what makes the accept thread try the worker again
+                    let p = e["s"].as_u64().unwrap_or(1) as usize;
+                    let before: usize = made_now(&sh).iter().sum();
+                    let dropped0 = sh.dropped.load(Ordering::SeqCst);
+                    for _ in 0..workers {
+                        let n0 = sh.ncalls.load(Ordering::SeqCst);
+                        if let Some(h) = client_silent(&addrs[p - 1]) {
+                            holders.push(h);
+                        }
+                        wait_until(Duration::from_secs(2), || sh.ncalls.load(Ordering::SeqCst) > n0);
+                    }
+                    let poisoned0 = sh.poisoned.load(Ordering::SeqCst);
+                    sh.panic_ready.store(true, Ordering::SeqCst);
+                    let _ = client(&addrs[p - 1], 300);
+                    wait_until(Duration::from_secs(3), || sh.poisoned.load(Ordering::SeqCst) > poisoned0);
+                    let died = wait_until(Duration::from_millis(400), || sh.dropped.load(Ordering::SeqCst) >= dropped0 + nsock);
+                    sh.panic_ready.store(false, Ordering::SeqCst);
+                    thread::sleep(Duration::from_millis(100));
+                    if died {
+                        pending_die = Some(before + nsock);
+                        out.push(json!({"ev": "die"}));
                     } else {
                         out.push(json!({"ev": "survived"}));
                     }
